@@ -204,7 +204,7 @@ func record(w *world, kindLabel string) {
 
 func TestStateMachine(t *testing.T) {
 	flag.Set("rapid.steps", strconv.Itoa(ev.Pick(40, 100)))
-	ev.Check(t, ev.N(3500, 130_000), func(t *rapid.T) {
+	ev.Check(t, ev.N(3500, 100_000), func(t *rapid.T) {
 		w := newWorld(t, "TestStateMachine", drawCase(t))
 		a := actor{w}
 		acts := map[string]func(*rapid.T){
@@ -249,7 +249,7 @@ func finalRoot(w *world) []byte {
 
 func TestHistoryIndependence(t *testing.T) {
 	histKinds := append(append([]string{}, mutKinds...), "snapshot", "snapshot", "revert", "revert", "suicide", "create", "touch", "finalise")
-	ev.Check(t, ev.N(1500, 40_000), func(t *rapid.T) {
+	ev.Check(t, ev.N(1500, 30_000), func(t *rapid.T) {
 		cs := drawCase(t)
 		// history 1
 		w1 := newWorld(t, "TestHistoryIndependence", cs)
